@@ -95,7 +95,7 @@ impl TopoSpec {
             noncores.push(n);
         }
         let mut ifs = IfAlloc { used: vec![vec![]; t.ases.len()], style: self.if_style, seed: self.seed, n: 0 };
-        let mut add = |t: &mut Topo, ifs: &mut IfAlloc, a: usize, b: usize, kind: LinkKind| {
+        let add = |t: &mut Topo, ifs: &mut IfAlloc, a: usize, b: usize, kind: LinkKind| {
             let a_if = ifs.next(a);
             let b_if = ifs.next(b);
             let r = mix(self.seed, 5000 + t.links.len() as u64);
